@@ -18,7 +18,14 @@ pub fn decl_leaves(e: &Expr, colls: &[Expr], out: &mut Vec<usize>) {
 	match e {
 		Expr::M(i) | Expr::R(i) => out.push(*i),
 		Expr::V(v) => v.iter().for_each(|e| decl_leaves(e, colls, out)),
-		Expr::P(_, e) | Expr::B(e) | Expr::F(e) | Expr::T(e) | Expr::O(_, e) => decl_leaves(e, colls, out),
+		Expr::P(_, e)
+		| Expr::B(e)
+		| Expr::F(e)
+		| Expr::T(e)
+		| Expr::Bn(_, e)
+		| Expr::Fn(e)
+		| Expr::Tn(_, e)
+		| Expr::O(_, e) => decl_leaves(e, colls, out),
 		Expr::C(j) => decl_leaves(&colls[*j], colls, out),
 	}
 }
@@ -28,7 +35,9 @@ pub fn max_poison(e: &Expr, colls: &[Expr]) -> usize {
 		Expr::M(_) | Expr::R(_) => 0,
 		Expr::V(v) => v.iter().map(|e| max_poison(e, colls)).max().unwrap_or(0),
 		Expr::P(p, e) => (p + 1).max(max_poison(e, colls)),
-		Expr::B(e) | Expr::F(e) | Expr::T(e) | Expr::O(_, e) => max_poison(e, colls),
+		Expr::B(e) | Expr::F(e) | Expr::T(e) | Expr::Bn(_, e) | Expr::Fn(e) | Expr::Tn(_, e) | Expr::O(_, e) => {
+			max_poison(e, colls)
+		}
 		Expr::C(j) => max_poison(&colls[*j], colls),
 	}
 }
@@ -224,6 +233,8 @@ fn acquire<'a>(
 		Node::F(c) => coll_acquire!(c, try_, write, key),
 		Node::T(c) => coll_acquire!(c, try_, write, key),
 		Node::O(c) => coll_acquire!(c, try_, write, key),
+		Node::Bref(c) => coll_acquire!(c, try_, write, key),
+		Node::Tref(c) => coll_acquire!(c, try_, write, key),
 		Node::V(_) => panic!("sessions on bare containers are not generated"),
 	}
 }
@@ -244,12 +255,16 @@ fn unlock_any(g: AnyGuard<'_>, node: &Node) -> ThreadKey {
 			Node::B(_) => B::<Node>::unlock(g),
 			Node::F(_) => F::<Node>::unlock(g),
 			Node::T(_) => T::<Node>::unlock(g),
+			Node::Bref(_) => B::<&Node>::unlock(g),
+			Node::Tref(_) => T::<&Node>::unlock(g),
 			_ => O::<Node>::unlock(g),
 		},
 		AnyGuard::Cr(g) => match node {
 			Node::B(_) => B::<Node>::unlock_read(g),
 			Node::F(_) => F::<Node>::unlock_read(g),
 			Node::T(_) => T::<Node>::unlock_read(g),
+			Node::Bref(_) => B::<&Node>::unlock_read(g),
+			Node::Tref(_) => T::<&Node>::unlock_read(g),
 			_ => O::<Node>::unlock_read(g),
 		},
 		AnyGuard::P(g) => Poisonable::<Node>::unlock(g),
@@ -331,6 +346,8 @@ fn scoped<'a, K: Keyable>(
 		Node::F(c) => coll_scoped!(c, try_, write, key, f),
 		Node::T(c) => coll_scoped!(c, try_, write, key, f),
 		Node::O(c) => coll_scoped!(c, try_, write, key, f),
+		Node::Bref(c) => coll_scoped!(c, try_, write, key, f),
+		Node::Tref(c) => coll_scoped!(c, try_, write, key, f),
 		Node::V(_) => panic!("sessions on bare containers are not generated"),
 	}
 }
